@@ -30,6 +30,7 @@ def pairs_stage(run, family, module, cfg, conv, label, gen="Gen_Pairs"):
 def shapes_stage(run, family, module, conv, label="shapes"):
     pairs_stage(run, family, module, "Gen_Shapes.cfg", conv, label, gen="Gen_Shapes")
     pairs_stage(run, family, module, "Gen_Shapes_holes.cfg", conv, label + "-holes", gen="Gen_Shapes")
+    pairs_stage(run, family, module, "Gen_Shapes_holes4.cfg", conv, label + "-holes4", gen="Gen_Shapes")
 
 
 @prop("C02")
